@@ -22,6 +22,7 @@ import vlib
 
 GAUSS = ["kf", "ukfa", "ukfg", "sukf"]
 KNOWN_GPF_KEY = "gpf-partial-update:wrapped-correction-fails-likelihood-valid"
+GPF_INPLACE_KEY = "gpf-in-place:predicted-set-not-restored"      # fixed by 5d39dcb; fires again if that is reverted
 METHODS = ["fz", "me", "pr", "in", "no", "li"]
 
 
@@ -80,8 +81,8 @@ def consulted_failures(cls, log):
 
 def parse_epochs(line):
     """ep=<e0>/<e1>/... -> list of sets of method codes unavailable during call i (None: call-indexed scripts)"""
-    last = line.split()[-1]
-    if not last.startswith("ep="):
+    last = next((x for x in line.split()[13:] if x.startswith("ep=")), None)
+    if last is None:
         return None
     return [set() if e == "-" else {e[i:i + 2] for i in range(0, len(e), 2)} for e in last[3:].split("/")]
 
@@ -119,6 +120,9 @@ def check_single(line, hout, dout, stats, notes):
         _, lab, calls, same = tok.split(":")
         mtok = ds[i].split(":") if i < len(ds) else [None, None, None]
         where = "call %d: " % i if len(hs) > 1 else ""
+        if same == "alias":
+            where += "in-place call correct(b, b): "
+            stats["in_place_calls"] = stats.get("in_place_calls", 0) + 1
         log = parse_log(calls)
         wrapped, rest = consulted_failures(cls, log)
         if epochs is not None:
@@ -133,13 +137,16 @@ def check_single(line, hout, dout, stats, notes):
         stats["observations"] = stats.get("observations", 0) + 1
         if lab.startswith("ambiguous"):
             stats["uninformative"] = stats.get("uninformative", 0) + 1
-        if same != "same":
+        if same not in ("same", "alias"):
             bad.append(("%s:input-modified" % cls, where + "the predicted belief passed in was modified"))
         if cls == "glik":
             if rest and "none" not in labs:
                 bad.append(("glik:value-reported-on-failure:%s" % rest[0], where + "GaussianLikelihood reported a value although %s was unavailable" % rest[0]))
         elif cls.startswith("gpf-"):
-            if rest and "pred" not in labs:
+            if rest and "pred" not in labs and same == "alias" and "unrestored" in labs:
+                bad.append((GPF_INPLACE_KEY, where + "likelihood unavailable (%s): the object comes back with the wrapped correction's Gaussians and redrawn positions "
+                            "(the restore corr = pred is a self-assignment) instead of the predicted set" % rest[0]))
+            elif rest and "pred" not in labs:
                 bad.append(("%s:belief-touched:likelihood-%s" % (cls, rest[0]), where + "likelihood unavailable (%s) but the corrected particle set differs from the predicted one (%s)" % (rest[0], lab)))
             elif wrapped and not rest and "pred" not in labs:
                 if "partial" in labs:
@@ -242,6 +249,9 @@ def exhaustive_cases(g, variants):
             if msub is not None:
                 m, sb = msub
             cases.append((mkline(cls, r.randint(0, 99999), n, m, k, sb, sc), {"style": "exhaustive", "cls": cls}))
+            if v == 0 and cls != "glik":
+                # the same script on an in-place call correct(b, b)
+                cases.append((mkline(cls, r.randint(0, 99999), n, m, k, sb, sc) + " alias=1", {"style": "exhaustive-in-place", "cls": cls}))
 
     for cls in ("kf", "ukfa", "ukfg", "glik", "bootg"):
         for sc in all_scripts({"me": 1, "pr": 1, "in": 1, "no": 1}):
@@ -261,6 +271,8 @@ def exhaustive_cases(g, variants):
                     sc2 = dict(sc)
                     sc2["no"] = [sc["no"][0]] + [True] * (k * (m // sb) - 1) + [sc["no"][1]]
                     cases.append((mkline("gpf-sukf-g", r.randint(0, 99999), n, m, k, sb, sc2), {"style": "exhaustive", "cls": "gpf-sukf-g"}))
+                    if v == 0:
+                        cases.append((mkline("gpf-sukf-g", r.randint(0, 99999), n, m, k, sb, sc2) + " alias=1", {"style": "exhaustive-in-place", "cls": "gpf-sukf-g"}))
             else:
                 add("gpf-%s-g" % w, sc)
         for sc in all_scripts({"me": 1, "pr": 1, "in": 1, "no": 1, "li": 1}):
@@ -302,11 +314,14 @@ def random_cases(g, count):
             seq = ["".join(x for x in METHODS if r.random() < pe) or "-" for _ in range(nep)]
             if cls.startswith("sis-"):
                 sub = nep
-            cases.append((mkline(cls, r.randint(0, 99999), n, m, k, sub, EMPTY) + " ep=" + "/".join(seq), {"style": "random-epochs", "cls": cls}))
+            al = " alias=1" if (r.random() < 0.3 and cls != "glik" and not cls.startswith("sis-")) else ""
+            cases.append((mkline(cls, r.randint(0, 99999), n, m, k, sub, EMPTY) + " ep=" + "/".join(seq) + al, {"style": "random-epochs", "cls": cls}))
             continue
         ln = mkline(cls, r.randint(0, 99999), n, m, k, sub, sc)
         if not cls.startswith("sis-") and r.random() < 0.6:
             ln += " reps=%d" % r.randint(2, 5)       # successive correct() calls on the same object
+        if cls != "glik" and not cls.startswith("sis-") and r.random() < 0.25:
+            ln += " alias=1"
         cases.append((ln, {"style": "random", "cls": cls}))
     return cases
 
@@ -341,7 +356,8 @@ def epoch_cases(g, variants):
             for v in range(variants):
                 n, m, k = sizes(r, v == 0)
                 sb = r.choice([d for d in (1, 2, 3) if m % d == 0]) if "sukf" in cls else 1
-                cases.append((mkline(cls, r.randint(0, 99999), n, m, k, sb, EMPTY) + " " + ep(seq), {"style": "epoch-sequence", "cls": cls}))
+                al = " alias=1" if (v == 1 and cls != "glik") else ""
+                cases.append((mkline(cls, r.randint(0, 99999), n, m, k, sb, EMPTY) + " " + ep(seq) + al, {"style": "epoch-sequence" + ("-in-place" if al else ""), "cls": cls}))
     for cls, meths in (("sis-bootg", ["me", "pr", "in", "no"]), ("sis-boots", ["li"])):
         seqs = [[set(), {"fz"}, set()], [{"fz"}, set(), {"fz"}], [{"fz"}, {"fz"}, set()], [set(), set(), {"fz"}]]
         for a in meths:
@@ -416,10 +432,11 @@ def run(ctx):
         ctx.violation(best[0], best[1], {"harness": "h_fault", "input_line": best[2], "observed": best[3][:2000],
                                          "crash_log": next((logs[i] for i, l in enumerate(lines) if l == best[2] and i in logs), None)})
     def has_failure(l):
-        tail = l.split("fz=")[1]
-        if " ep=" in tail:
-            return any(c.isalpha() for c in tail.split(" ep=")[1])
-        return "0" in tail.split(" reps=")[0]
+        t = l.split()
+        ep = next((x for x in t[13:] if x.startswith("ep=")), None)
+        if ep is not None:
+            return any(c.isalpha() for c in ep[3:])
+        return any("0" in x.split("=")[1] for x in t[7:13])
     failing = sum(1 for l in lines if has_failure(l))
     ctx.coverage.update({
         "evaluations": len(cases),
@@ -433,7 +450,8 @@ def run(ctx):
                 "on one object with valid/failing patterns per method; state-based scripts (`ep=`: during call i the named methods are unavailable "
                 "whether or not the class asks) on one object for every class: every all-valid call followed by every failing subset, two "
                 "successes then a failure, failure->success->failure and success->failure->success->failure for all pairs of single failures, "
-                "SIS freeze/likelihood patterns per step; plus random longer scripts (call-indexed with 2..5 successive calls, or state-based); "
+                "SIS freeze/likelihood patterns per step; every exhaustive script and half of the state-based sequences also as in-place calls "
+                "correct(b, b) (output compared with a copy of b taken before the call); plus random longer scripts (call-indexed with 2..5 successive calls, or state-based); "
                 "non-trivial = at least one scripted 'unavailable' answer; distinct = distinct input lines",
         "samples": [lines[0][:300], lines[len(lines) // 2][:300], lines[-1][:300]],
         "exhaustive": True,
@@ -443,6 +461,7 @@ def run(ctx):
         "traces_validated_against_impl": len(cases),
         "call_logs_identical_to_model": stats.get("logs_identical", 0),
         "state_based_calls_checked": stats.get("epoch_calls", 0),
+        "in_place_calls_checked": stats.get("in_place_calls", 0),
         "model_branch_hits": dict(sorted(stats.get("branches", {}).items())),
         "property_failures_on_impl": len(prop_bad),
         "property_failures_by_key": {k: sum(1 for x in prop_bad if x[0] == k) for k in sorted(set(x[0] for x in prop_bad))},
